@@ -433,7 +433,7 @@ fn write_evidence(prop: &str, tier: &str, seed: u64, agg: &Agg, wall: f64, viola
             "second_stage_miri": miri,
             "known_findings_matched": known,
             "real_components": ["stretto cache, store, ttl, policy, ring, sketch, bbloom, metrics, histogram, utils (working tree of /repo)", "parking_lot locks", "wg wait groups", "async flavour: async-channel, futures::select!, event-listener, wg::AsyncWaitGroup"],
-            "stubbed_components": ["OS scheduler (baton scheduler, one task at a time)", "std::thread::spawn / executor spawner", "wall clock (SystemTime)", "crossbeam tick / async-io Timer", "sync flavour: crossbeam-channel and select! (simulator channel)"],
+            "stubbed_components": ["OS scheduler (baton scheduler, one task at a time)", "std::thread::spawn / executor spawner", "wall clock (SystemTime)", "monotonic clock (std::time::Instant: clock_gettime is defined by the harness binary and reads the virtual clock during a run)", "crossbeam tick / async-io Timer", "sync flavour: crossbeam-channel and select! (simulator channel)"],
         },
         "assumptions": [
             "tasks interleave at lock, channel (simulator channels in the sync flavour, the real async-channel behind pass-through wrappers in the async flavour), wait-group, clock, coordination-flag, metrics-counter and capacity-cell operations under sequential consistency; races inside unsafe code and weak-memory effects are out of scope",
